@@ -380,6 +380,14 @@ func (c *FnCtx) evalClause(fr *frame, st *State, cl *Clause, li *loopInfo) strin
 		preds = fr.con.Preds
 	}
 	ec := &evalCtx{c: c, st: st, old: c.entry, pkg: pkg, preds: preds, names: c.resolver(fr, li, nil)}
+	ec.loopVar = func(n int, name string) (Val, bool) {
+		for _, l := range fr.loops {
+			if l.ord == n {
+				return c.phiByName(fr, l, name)
+			}
+		}
+		return Val{}, false
+	}
 	for k, v := range c.lets {
 		if ec.bound == nil {
 			ec.bound = map[string]Val{}
@@ -390,8 +398,8 @@ func (c *FnCtx) evalClause(fr *frame, st *State, cl *Clause, li *loopInfo) strin
 }
 
 // verifyFunction generates all obligations of one function under contract.
-func (eng *Engine) verifyFunction(fn *ssa.Function, con *Contract) (ctx *FnCtx, err error) {
-	c := &FnCtx{eng: eng, fn: fn, con: con, ghost: map[string]Val{}, usedSpecs: map[string]bool{}, lets: map[string]Val{}, panicCond: "false", nonNil: map[string]bool{}}
+func (eng *Engine) verifyFunction(fn *ssa.Function, con *Contract, bounded int) (ctx *FnCtx, err error) {
+	c := &FnCtx{eng: eng, fn: fn, con: con, bounded: bounded, ghost: map[string]Val{}, usedSpecs: map[string]bool{}, lets: map[string]Val{}, panicCond: "false", nonNil: map[string]bool{}}
 	defer func() {
 		if r := recover(); r != nil {
 			if u, ok := r.(unsupported); ok {
@@ -455,6 +463,7 @@ func (eng *Engine) verifyFunction(fn *ssa.Function, con *Contract) (ctx *FnCtx, 
 	}
 	c.entry = st.clone()
 	rst, rvals := c.run(fr, st)
+	c.resultVals = rvals
 	// postconditions at the merged return
 	if rst.guard != "false" {
 		pc := &evalCtx{c: c, st: rst, old: c.entry, pkg: pkg, preds: con.Preds, names: c.resolver(fr, nil, rvals), bound: c.lets}
